@@ -137,11 +137,7 @@ def judge(run, traces, d, tag):
 def do_replay(run, binp, path, d):
     """Re-executes the stored invocation (family, N, argument) on the current tree and re-judges it."""
     t = json.load(open(path))["payload"]["trace"]
+    # no stored expectation is reused: the trace spec computes Composed(fam, n, a) itself (predicate Result)
     case = {"fam": t["fam"], "n": t["n"], "a": t["a"]}
-    # the expected value comes from the model again, not from the stored file
-    exp = run_tlc("ComposeMC", MC_CFG % dict(inttop=300, seqlen=4), timeout=900)
-    for cs in exp.json_prints("case"):
-        if (cs["fam"], cs["n"], cs["a"]) == (t["fam"], t["n"], t["a"]):
-            case["want"] = cs["want"]
     traces = execute(binp, d, "replay", cases=[case])
     judge(run, traces, d, "replay")
